@@ -3,6 +3,7 @@
 package cq
 
 import (
+	"runtime/debug"
 	"bufio"
 	"crypto/sha256"
 	"encoding/json"
@@ -149,3 +150,29 @@ func Catch(f func()) (panicked bool, msg string) {
 	f()
 	return
 }
+
+// CatchSite runs f; on panic returns the first stack frame inside BBVA/QED (function name) and the message.
+func CatchSite(f func()) (panicked bool, site, msg string) {
+	defer func() {
+		if r := recover(); r != nil {
+			panicked = true
+			msg = fmt.Sprint(r)
+			site = "unknown"
+			for _, line := range strings.Split(string(debugStack()), "\n") {
+				if strings.Contains(line, "github.com/bbva/qed") && !strings.HasPrefix(line, "\t") {
+					site = strings.TrimSpace(line)
+					if i := strings.Index(site, "("); i > 0 {
+						site = site[:i]
+					}
+					site = strings.TrimPrefix(site, "github.com/bbva/qed")
+					site = strings.TrimPrefix(site, "@v0.0.0")
+					break
+				}
+			}
+		}
+	}()
+	f()
+	return
+}
+
+func debugStack() []byte { return debug.Stack() }
